@@ -74,13 +74,13 @@ VARIANTS = [
     V("NA compared by identity", ("C13",), "R-PICKLE", "core.py", '            if xrdtypes.NA == fill_value:', '            if fill_value is xrdtypes.NA:', must_mention="_finalize_results"),
     V("random tie-breaker in a task", ("C13",), "R-NONDET", "core.py", 'def _expand_dims(results: IntermediateDict) -> IntermediateDict:\n', 'def _expand_dims(results: IntermediateDict) -> IntermediateDict:\n    import random\n    random.random()\n', must_mention="_expand_dims"),
     # ---------------- R-TOKEN / R-KEYS / R-ORDER / R-COVER (C14, C03, C09, C06)
-    V("token drops expected_groups", ("C14",), "R-TOKEN", "core.py", 'tokenize(array, by, agg, expected_groups, axis, method, sort)', 'tokenize(array, by, agg, axis, method, sort)', must_mention="expected_groups"),
-    V("token drops method", ("C14",), "R-TOKEN", "core.py", 'tokenize(array, by, agg, expected_groups, axis, method, sort)', 'tokenize(array, by, agg, expected_groups, axis, sort)', must_mention="method"),
+    V("token drops expected_groups", ("C14",), "R-TOKEN", "core.py", 'tokenize(array, by, agg, expected_groups, axis, method, sort, engine)', 'tokenize(array, by, agg, axis, method, sort, engine)', must_mention="expected_groups"),
+    V("token drops method", ("C14",), "R-TOKEN", "core.py", 'tokenize(array, by, agg, expected_groups, axis, method, sort, engine)', 'tokenize(array, by, agg, expected_groups, axis, sort, engine)', must_mention="method"),
     V("constant preprocess layer name", ("C14",), "R-TOKEN", "aggregations.py", '        token="groupby-argreduce-preprocess",', '        name="groupby-argreduce-preprocess",', must_mention="argreduce_preprocess"),
     V("__dask_tokenize__ drops min_count", ("C14", "C09"), "R-TOKEN", "aggregations.py", '            self.min_count,\n', '', must_mention="min_count"),
     V("cohort subset named without tokenize", ("C14", "C09"), "R-TOKEN", "core.py", 'name = "groupby-cohort-" + tokenize(array, index, reindexer)', 'name = "groupby-cohort-subset"', must_mention="subset_to_blocks"),
     V("cohort subset token without the reindexer", ("C14", "C09"), "R-TOKEN", "core.py", 'tokenize(array, index, reindexer)', 'tokenize(array, index)', must_mention="reindexer"),
-    V("twin: more ingredients in the token", ("C14",), "", "core.py", 'tokenize(array, by, agg, expected_groups, axis, method, sort)', 'tokenize(array, by, agg, expected_groups, axis, method, sort, engine, reindex)', expect="silent"),
+    V("twin: more ingredients in the token", ("C14",), "", "core.py", 'tokenize(array, by, agg, expected_groups, axis, method, sort, engine)', 'tokenize(array, by, agg, expected_groups, axis, method, sort, engine, reindex)', expect="silent"),
     V("level dropped from intermediate name", ("C03",), "R-KEYS", "dask_array_ops.py", 'newname = name + f"-{block_index}-partial-{level}"', 'newname = name + f"-{block_index}-partial"', must_mention="_tree_reduce"),
     V("block_index dropped from intermediate name", ("C03", "C09"), "R-KEYS", "dask_array_ops.py", 'newname = name + f"-{block_index}-partial-{level}"', 'newname = name + f"-partial-{level}"', must_mention="_tree_reduce"),
     V("depth from positionally zipped split_every", ("C03", "C09"), "R-AXISKEY", "dask_array_ops.py", '    for i, n in enumerate(numblocks):\n        if i in split_every and split_every[i] != 1:\n            depth = int(builtins.max(depth, math.ceil(math.log(n, split_every[i]))))', '    for n, every in zip(numblocks, split_every.values()):\n        if every != 1:\n            depth = int(builtins.max(depth, math.ceil(math.log(n, every))))', must_mention="_tree_reduce"),
@@ -231,6 +231,7 @@ VARIANTS = [
     V("maybe_promote treats floats like integers (float32 widened)", ("C11",), "R-PROMOTEIDEM", "xrdtypes.py", '    if np.issubdtype(dtype, np.floating):\n        fill_value = np.nan\n    elif np.issubdtype(dtype, np.timedelta64):\n        # See https://github.com/numpy/numpy/issues/10685\n        # np.timedelta64 is a subclass of np.integer\n        # Check np.timedelta64 before np.integer\n        fill_value = np.timedelta64("NaT")\n    elif np.issubdtype(dtype, np.integer):\n', '    if np.issubdtype(dtype, np.timedelta64):\n        fill_value = np.timedelta64("NaT")\n    elif np.issubdtype(dtype, np.integer) or np.issubdtype(dtype, np.floating):\n', must_mention="float32"),
     V("twin: maybe_promote tests floats after the integers", ("C11",), "", "xrdtypes.py", '    if np.issubdtype(dtype, np.floating):\n        fill_value = np.nan\n    elif np.issubdtype(dtype, np.timedelta64):\n        # See https://github.com/numpy/numpy/issues/10685\n        # np.timedelta64 is a subclass of np.integer\n        # Check np.timedelta64 before np.integer\n        fill_value = np.timedelta64("NaT")\n    elif np.issubdtype(dtype, np.integer):\n        dtype = np.float32 if dtype.itemsize <= 2 else np.float64\n        fill_value = np.nan\n', '    if np.issubdtype(dtype, np.timedelta64):\n        fill_value = np.timedelta64("NaT")\n    elif np.issubdtype(dtype, np.integer):\n        dtype = np.float32 if dtype.itemsize <= 2 else np.float64\n        fill_value = np.nan\n    elif np.issubdtype(dtype, np.floating):\n        fill_value = np.nan\n', expect="silent"),
     V("xarray wrapper drops min_count for non-skipping reductions", ("C05",), "R-PASSTHROUGH[options]", "xarray.py", '                func = f"nan{func}"\n\n        result, *groups = groupby_reduce(array, *by, func=func, **kwargs)', '                func = f"nan{func}"\n        elif kwargs.get("min_count") is not None:\n            kwargs["min_count"] = None\n\n        result, *groups = groupby_reduce(array, *by, func=func, **kwargs)', must_mention="min_count"),
+    V("token drops the engine", ("C14",), "R-TOKEN", "core.py", 'tokenize(array, by, agg, expected_groups, axis, method, sort, engine)', 'tokenize(array, by, agg, expected_groups, axis, method, sort)', must_mention="engine"),
     V("dtype promotion memoised with an untyped key", ("C14",), "R-MEMO", "xrdtypes.py", '        dtype = np.result_type(dtype, fill_value)\n    return dtype\n',
       '        dtype = _promote_for_fill_value(dtype, fill_value)\n    return dtype\n\n\n@functools.lru_cache\ndef _promote_for_fill_value(dtype: np.dtype, fill_value) -> np.dtype:\n    return np.result_type(dtype, fill_value)\n', must_mention="typed"),
     V("twin: dtype promotion memoised with typed=True", ("C14",), "", "xrdtypes.py", '        dtype = np.result_type(dtype, fill_value)\n    return dtype\n',
